@@ -2,7 +2,7 @@
 from common import *  # noqa
 import dbtie
 
-PROFILE = {'scenario_pref': ['stale_handle', 'getter_memo', 'handle_sorted', 'handle_times'], 'p_write': 0.3, 'p_plain': 0.5, 'handle_writes': True, 'writes': {'insert': 3, 'insert_multiple': 1, 'remove': 1, 'drop': 1, 'remove_all': 0.3, 'update': 1, 'reindex': 0.5, 'reopen': 0.5, 'handle': 5}}
+PROFILE = {'scenario_pref': ['handle_unset', 'stale_handle', 'getter_memo', 'handle_sorted', 'handle_times'], 'p_write': 0.3, 'p_plain': 0.5, 'handle_writes': True, 'writes': {'insert': 3, 'insert_multiple': 1, 'remove': 1, 'drop': 1, 'remove_all': 0.3, 'update': 1, 'reindex': 0.5, 'reopen': 0.5, 'handle': 5}}
 
 
 def main(tier, seed):
@@ -13,7 +13,7 @@ def main(tier, seed):
     def regen():
         rc, out = sh([PY, str(VERIF / "harness" / "py2coq_handle.py"), str(REPO / "tinyflux"), str(COQ / "gen" / "HandleGen.v")], timeout=60)
         refused.extend(l for l in out.splitlines() if l.startswith("REFUSED"))
-    return dbtie.db_check("C10", tier, seed, PROFILE, 400, 6000, "Prop_C10",
+    return dbtie.db_check("C10", tier, seed, PROFILE, 650, 6000, "Prop_C10",
                           "user callables and re are an environment the theorems quantify over; the tie instantiates them with the twin table",
                           pre=regen, extra_cov={"translator": {"source": "tinyflux/measurement.py (forwarding methods) + signatures of tinyflux/database.py -> coq/gen/HandleGen.v (regenerated on this run)",
                                                                "refused": refused, "equivalence_theorem": "gen_forward_eq"}})
